@@ -314,6 +314,10 @@ func (m Manager) IsCommitted(_ context.Context, change orm.DIDChangeLog) (bool, 
 	// get the latest from the didStore
 	_, meta, err := m.store.Resolve(change.DID(), &resolver.ResolveMetadata{AllowDeactivated: true})
 	if err != nil {
+		if errors.Is(err, resolver.ErrNotFound) {
+			// a new DID of which the first document never reached the network (e.g. node stopped before publishing): not committed.
+			return false, nil
+		}
 		return false, err
 	}
 	changeHash := hash.SHA256Sum([]byte(change.DIDDocumentVersion.Raw))
